@@ -946,7 +946,7 @@ fn c19_tb_v4_nts_timestamp_response() {
 #[kani::stub(crate::system::TimeSnapshot::root_dispersion, root_dispersion_uf)]
 #[kani::stub(crate::packet::v5::NtpServerCookie::new_random, server_cookie_stub)]
 #[kani::stub(crate::keyset::KeySet::encode_cookie, encode_cookie_stub)]
-fn c19_b_v4_nts_cookie_cap() {
+fn c19_tb_v4_nts_cookie_cap() {
     let len: u16 = kani::any();
     let mut authenticated = Vec::new();
     let mut i = 0;
@@ -967,6 +967,67 @@ fn c19_b_v4_nts_cookie_cap() {
     assert!(r.efdata.encrypted.len() == MAX_COOKIES);
     assert!(r.efdata.authenticated.is_empty());
     kani::cover!(true, "reachable");
+}
+
+/// slice of the cookie contract (NTPv4; thorough tier: CBMC does not finish within 10 min -- the
+/// iterator chain chain/take/filter_map/collect dominates): a request whose authenticated part is ONE field
+/// -- a cookie of 0..=4 bytes or a placeholder of any declared length -- and a fresh cookie of
+/// 0..=4 bytes: the answer carries exactly one fresh cookie if it fits in the field it replaces and
+/// none otherwise; never more than one per field; nothing unauthenticated, no MAC.
+#[kani::proof]
+#[kani::unwind(12)]
+#[kani::stub(crate::system::TimeSnapshot::root_dispersion, root_dispersion_uf)]
+#[kani::stub(crate::packet::v5::NtpServerCookie::new_random, server_cookie_stub)]
+#[kani::stub(crate::keyset::KeySet::encode_cookie, encode_cookie_stub)]
+fn c19_tb_slice_v4_one_cookie_field() {
+    let buf: [u8; 4] = kani::any();
+    let n: usize = kani::any();
+    kani::assume(n <= 4);
+    let placeholder_len: u16 = kani::any();
+    let is_placeholder: bool = kani::any();
+    let field = if is_placeholder {
+        EF::NtsCookiePlaceholder { cookie_length: placeholder_len }
+    } else {
+        EF::NtsCookie(std::borrow::Cow::Borrowed(&buf[..n]))
+    };
+    let room = if is_placeholder { placeholder_len as usize } else { n };
+    let input = NtpPacket {
+        header: NtpHeader::V4(any_header_v3v4()),
+        efdata: ExtensionFieldData { authenticated: vec![field], encrypted: vec![], untrusted: vec![] },
+        mac: None,
+    };
+    let fresh: usize = kani::any();
+    kani::assume(fresh <= 4);
+    COOKIE_LEN.store(fresh, Relaxed);
+    let _rd = rd_value();
+    let keyset = { use crate::verif_common::FromParts; KeySet::from_parts(()) }; // only handed to the stubbed encode_cookie
+    let cookie = model_cookie();
+    let r = NtpPacket::nts_timestamp_response(any_server_info(false), input, any_ts(), &VClock(any_ts()), &cookie, &keyset);
+    let expect = if fresh <= room { 1 } else { 0 };
+    assert!(r.efdata.encrypted.len() == expect, "one fresh cookie iff it is no larger than the field it replaces");
+    assert!(all_fresh_cookies(&r.efdata.encrypted, fresh));
+    assert!(r.efdata.authenticated.is_empty() && r.efdata.untrusted.is_empty() && r.mac.is_none());
+    kani::cover!(expect == 0 && is_placeholder, "too-small placeholder gets no cookie");
+    kani::cover!(expect == 1 && !is_placeholder, "cookie replaced by a fresh one");
+}
+/// CANARY (false claim, must be refuted): a cookie field is never answered with a fresh cookie.
+#[kani::proof]
+#[kani::unwind(12)]
+#[kani::stub(crate::system::TimeSnapshot::root_dispersion, root_dispersion_uf)]
+#[kani::stub(crate::packet::v5::NtpServerCookie::new_random, server_cookie_stub)]
+#[kani::stub(crate::keyset::KeySet::encode_cookie, encode_cookie_stub)]
+fn c19_tcanary_slice_v4_no_fresh_cookie() {
+    let input = NtpPacket {
+        header: NtpHeader::V4(any_header_v3v4()),
+        efdata: ExtensionFieldData { authenticated: vec![EF::NtsCookiePlaceholder { cookie_length: kani::any() }], encrypted: vec![], untrusted: vec![] },
+        mac: None,
+    };
+    COOKIE_LEN.store(0, Relaxed);
+    let _rd = rd_value();
+    let keyset = { use crate::verif_common::FromParts; KeySet::from_parts(()) }; // only handed to the stubbed encode_cookie
+    let cookie = model_cookie();
+    let r = NtpPacket::nts_timestamp_response(any_server_info(false), input, any_ts(), &VClock(any_ts()), &cookie, &keyset);
+    assert!(r.efdata.encrypted.is_empty(), "CANARY: must be refuted");
 }
 
 // ================================================================ C23 / C22: header decoder is total
